@@ -91,11 +91,22 @@ func PagePlaces() string {
 	return "places.html"
 }
 
+// placeKey returns the name (without ".html") of the page for a place. Place
+// names that only differ in case or punctuation share one page.
+func placeKey(prettyName string) string {
+	key := alnumOrDashRegexp.
+		ReplaceAllString(strings.ToLower(prettyName), "-")
+
+	if isReservedPageName(key) {
+		key += "-"
+	}
+
+	return key
+}
+
 func PagePlace(place string, places map[string]*place) string {
-	for key, value := range places {
-		if value.PrettyName == place {
-			return fmt.Sprintf("%s.html", key)
-		}
+	if key := placeKey(place); places[key] != nil {
+		return fmt.Sprintf("%s.html", key)
 	}
 
 	return "#"
